@@ -1415,6 +1415,9 @@ func (a *analysis) classify(g *global, uses []use) {
 	v := g.v
 	if g.Kind == "sync" {
 		g.Class, g.Evidence = "synchronised", "sync primitive or type documented as safe for concurrent use ("+types.TypeString(v.Type(), nil)+")"
+		if strings.HasSuffix(types.TypeString(v.Type(), nil), "sync.Pool") {
+			g.Evidence = "synchronised (pool): " + a.poolEvidence(g, uses) + "; objects must not be used after Put - NOT CHECKED"
+		}
 		for _, u := range uses {
 			if !u.init && (u.cat == "assign" || u.cat == "field-write" || u.cat == "elem-write") && u.gi.key == "" {
 				g.Class, g.Evidence = "unsynchronised-mutable", "the variable itself is overwritten: "+u.cat+optDetail(u)+" in "+u.fn
@@ -1555,6 +1558,49 @@ func (a *analysis) classify(g *global, uses []use) {
 			g.Evidence += "; package imported by " + strings.Join(imps, ",")
 		}
 	}
+}
+
+// poolEvidence says what a sync.Pool recycles (from its New function) and where objects are taken and handed back.
+func (a *analysis) poolEvidence(g *global, uses []use) string {
+	what := "objects of unknown type"
+	if g.init != nil {
+		ast.Inspect(g.init, func(n ast.Node) bool {
+			kv, ok := n.(*ast.KeyValueExpr)
+			if !ok {
+				return true
+			}
+			if k, ok := kv.Key.(*ast.Ident); !ok || k.Name != "New" {
+				return true
+			}
+			ast.Inspect(kv.Value, func(m ast.Node) bool {
+				if r, ok := m.(*ast.ReturnStmt); ok && len(r.Results) == 1 {
+					if t := g.p.info.TypeOf(r.Results[0]); t != nil {
+						ts := types.TypeString(t, func(q *types.Package) string { return q.Name() })
+						switch {
+						case hasPointers(t):
+							what = "recycles " + ts + " (pointer/slice/map: mutable data shared with whoever still holds a recycled object)"
+						default:
+							what = "recycles " + ts
+						}
+					}
+				}
+				return true
+			})
+			return false
+		})
+	}
+	var gets, puts []string
+	for _, u := range uses {
+		switch u.detail {
+		case "sync.Get":
+			gets = append(gets, u.fn)
+		case "sync.Put":
+			puts = append(puts, u.fn)
+		}
+	}
+	sort.Strings(gets)
+	sort.Strings(puts)
+	return what + "; Get in " + strings.Join(uniq(gets), ",") + "; Put in " + strings.Join(uniq(puts), ",")
 }
 
 func optDetail(u use) string {
